@@ -8,7 +8,7 @@ from util import call, quiet
 
 REQUIRED_THEOREMS = ['Usid.C08.indices_formula', 'Usid.C08.each_combination_once', 'Usid.C08.position_is_transpose',
                      'Usid.C08.written_slowest_first', 'Usid.C08.make_indices_matrix']
-RULE = ('tuples of dimension sizes (1..4 per dimension, up to 4 dimensions; thorough: ALL such tuples) with non-uniform '
+RULE = ('[values handed over as float lists, python ints, int64 / int32 / uint8 / float32 arrays] tuples of dimension sizes (1..4 per dimension, up to 4 dimensions; thorough: ALL such tuples) with non-uniform '
         'dyadic values (quarters), labels/units with deliberate repeats, is_spectral in {F,T}, slow_to_fast in {F,T}; '
         'build_ind_val_matrices, make_indices_matrix and write_ind_val_dsets are run for real; non-trivial = at least two '
         'dimensions of size > 1')
@@ -23,7 +23,36 @@ def _case(rng, sizes):
         for _ in range(s - 1):
             vals.append(vals[-1] + rng.randint(1, 6))
         dims.append({'name': 'D%d' % d, 'units': rng.choice(['m', 's', 'm']), 'values': vals})
-    return {'dims': dims, 'spec': rng.random() < 0.5, 's2f': rng.random() < 0.5}
+    case = {'dims': dims, 'spec': rng.random() < 0.5, 's2f': rng.random() < 0.5}
+    if rng.random() < 0.4:
+        # the builder functions take "array-like" values: hand some dimensions over as integers (python ints,
+        # integer / unsigned / float32 arrays) next to dimensions with fractional values
+        for d in dims:
+            if rng.random() < 0.5:
+                kind = rng.choice(['int-list', 'int64', 'int32', 'uint8', 'f4'])
+                if kind == 'f4':
+                    d['as'] = kind
+                    continue
+                vals = [4 * v for v in d['values']]              # whole numbers
+                if kind == 'uint8':
+                    lo = min(vals)
+                    vals = [v - lo for v in vals]
+                    if max(vals) // 4 > 255:
+                        kind = 'int64'
+                d['values'], d['as'] = vals, kind
+    return case
+
+
+def _container(d):
+    vals = [v / 4.0 for v in d['values']]
+    kind = d.get('as')
+    if kind == 'int-list':
+        return [int(v) for v in vals]
+    if kind in ('int64', 'int32', 'uint8'):
+        return np.array([int(v) for v in vals], dtype=kind)
+    if kind == 'f4':
+        return np.array(vals, dtype=np.float32)
+    return vals
 
 
 def generate(seed, tier):
@@ -68,7 +97,7 @@ def run_impl(inp, work):
     from pyUSID.io.hdf_utils import write_ind_val_dsets
     from pyUSID.io.dimension import Dimension
     dims = inp['dims']
-    uv = [[v / 4.0 for v in d['values']] for d in dims]
+    uv = [_container(d) for d in dims]
     out = {}
     r = call(build_ind_val_matrices, uv, is_spectral=True)
     rp = call(build_ind_val_matrices, uv, is_spectral=False)
